@@ -178,7 +178,9 @@ def mounts_case():
     return st.tuples(st.just("mounts"),
                      st.one_of(st.lists(line, max_size=12), st.lists(line, min_size=60, max_size=300)),
                      st.lists(fsline, max_size=9), st.booleans(),
-                     st.sampled_from([0, 0, 0, 3000, 9000, 70000]))   # extra-long device name
+                     # extra-long device name: inside (1.1-1.9 kB) and beyond
+                     # the range where the line is compared with the model
+                     st.sampled_from([0, 0, 0, 600, 1100, 1500, 1900, 3000, 9000, 70000]))
 
 
 def strategy(tier):
@@ -398,7 +400,12 @@ def run_child_case(case):
         _, lines, fslines, all_, longdev = case
         lines = [bytes(x) for x in lines]
         if longdev:
-            lines = lines + [b"/dev/" + b"L" * longdev + b" /long ext4 rw 0 0"]
+            # a long device name and, for the mid sizes, long options too
+            # (overlay mounts with many lowerdir layers look like this)
+            opts = b"rw,lowerdir=" + b":".join(b"/l%d" % i for i in range(longdev // 12)) \
+                if longdev <= 1900 else b"rw"
+            lines = lines + [b"/dev/" + b"L" * (longdev // 3) + b" /long ext4 " + opts + b" 0 0"] \
+                if longdev <= 1900 else lines + [b"/dev/" + b"L" * longdev + b" /long ext4 rw 0 0"]
         blob = b"\n".join(lines) + b"\n"
         d = _CHILD.setdefault("tmp", tempfile.mkdtemp(prefix="psv-c17-", dir=os.environ.get("VERIF_SCRATCH")))
         proc = os.path.join(d, "procfs")
